@@ -31,7 +31,7 @@ REC_JWE_ENC = ["A128CBC-HS256", "A192CBC-HS384", "A256CBC-HS512", "A128GCM", "A1
 REC_JWE_ZIP = ["DEF"]
 REC_JWE = REC_JWE_ALG + REC_JWE_ENC + REC_JWE_ZIP
 
-UNKNOWN = ["", "HS257", "hs256", "HS256 ", " none", "NONE", "None", "A128KW", "RS256\x00", "ES256K1",
+UNKNOWN = ["BOGUS", "", "HS257", "hs256", "HS256 ", " none", "NONE", "None", "A128KW", "RS256\x00", "ES256K1",
            "A128GCM", "DEF", "dir", "é", "XX"]
 NONSTR = [None, 0, 1, True, False, 1.5, ["HS256"], {"HS256": 1}, [], {}, b"HS256", -1]
 JSON_NONSTR = [None, 0, 1, True, False, 1.5, ["HS256"], {"HS256": 1}, [], {}]
@@ -278,6 +278,33 @@ def _alg_of(obj):
     return a if isinstance(a, str) else None
 
 
+# ---- message contents (the gates must not depend on them) -----------------------------------
+def _msg(d):
+    m = d.get("msg", ABSENT)
+    return "default" if m is ABSENT else m
+
+
+def _pt(d):
+    return {"default": PLAINTEXT, "empty": b"", "one": b"\x00"}[_msg(d)]
+
+
+def _pl(d):
+    return {"default": PAYLOAD, "empty": b"", "one": b"p"}[_msg(d)]
+
+
+def _txt(d):
+    return {"default": TEXT_PAYLOAD, "empty": "", "one": "p"}[_msg(d)]
+
+
+def _cl(d):
+    return {"default": CLAIMS, "empty": {}, "one": {"a": 0}}[_msg(d)]
+
+
+def _aad(d):
+    a = d.get("aad", ABSENT)
+    return None if a is ABSENT else a
+
+
 def make_token(d, K):
     """A token for a verification / decryption call.  Registered string names give a
     genuine token produced under a permissive registry; other names ("named only by an
@@ -296,23 +323,23 @@ def make_token(d, K):
         if op in ("jws.deserialize_compact", "jws.validate_compact"):
             a = algs[0]
             if real(a):
-                return jws.serialize_compact({"alg": a}, PAYLOAD, K.jws(a), registry=perm)
-            return b64json({"alg": a}) + "." + b64(PAYLOAD) + "." + sig
+                return jws.serialize_compact({"alg": a}, _pl(d), K.jws(a), registry=perm)
+            return b64json({"alg": a}) + "." + b64(_pl(d)) + "." + sig
         if op == "jwt.decode":
             a = algs[0]
             if real(a):
-                return jwt.encode({"alg": a}, CLAIMS, K.jws(a), registry=perm)
-            return b64json({"typ": "JWT", "alg": a}) + "." + b64json(CLAIMS) + "." + sig
+                return jwt.encode({"alg": a}, _cl(d), K.jws(a), registry=perm)
+            return b64json({"typ": "JWT", "alg": a}) + "." + b64json(_cl(d)) + "." + sig
         if op == "jws.deserialize_json/flat":
             a = algs[0]
             if real(a):
-                return jws.serialize_json({"protected": {"alg": a}}, PAYLOAD, K.jws(a), registry=perm)
-            return {"payload": b64(PAYLOAD), "protected": b64json({"alg": a}), "signature": sig}
+                return jws.serialize_json({"protected": {"alg": a}}, _pl(d), K.jws(a), registry=perm)
+            return {"payload": b64(_pl(d)), "protected": b64json({"alg": a}), "signature": sig}
         if op == "jws.deserialize_json/general":
             reals = [a for a in algs if real(a)]
             signed = []
             if reals:
-                out = jws.serialize_json([{"protected": {"alg": a}} for a in reals], PAYLOAD,
+                out = jws.serialize_json([{"protected": {"alg": a}} for a in reals], _pl(d),
                                          lambda o: K.jws(_alg_of(o)), registry=perm)
                 signed = list(out["signatures"])
             sigs = []
@@ -321,20 +348,20 @@ def make_token(d, K):
                     sigs.append(signed.pop(0))
                 else:
                     sigs.append({"protected": b64json({"alg": a}), "signature": sig})
-            return {"payload": b64(PAYLOAD), "signatures": sigs}
+            return {"payload": b64(_pl(d)), "signatures": sigs}
         if op == "rfc7797.deserialize_compact":
             a = algs[0]
             h = jws_header(a, b64v)
             if real(a):
-                return c7797.serialize_compact(h, TEXT_PAYLOAD, K.jws(a), registry=perm7)
-            body = TEXT_PAYLOAD if b64v is False else b64(TEXT_PAYLOAD.encode())
+                return c7797.serialize_compact(h, _txt(d), K.jws(a), registry=perm7)
+            body = _txt(d) if b64v is False else b64(_txt(d).encode())
             return b64json(h) + "." + body + "." + sig
         if op == "rfc7797.deserialize_json":
             a = algs[0]
             h = jws_header(a, b64v)
             if real(a):
-                return j7797.serialize_json({"protected": h}, TEXT_PAYLOAD, K.jws(a), registry=perm7)
-            body = TEXT_PAYLOAD if b64v is False else b64(TEXT_PAYLOAD.encode())
+                return j7797.serialize_json({"protected": h}, _txt(d), K.jws(a), registry=perm7)
+            body = _txt(d) if b64v is False else b64(_txt(d).encode())
             return {"payload": body, "protected": b64json(h), "signature": sig}
     if op in JWE_DEC_OPS:
         EA, EE, EZ = (jwe.JWERegistry.algorithms[k] for k in ("alg", "enc", "zip"))
@@ -348,26 +375,26 @@ def make_token(d, K):
         if op in ("jwe.decrypt_compact", "jwt.decode/jwe"):
             a = algs[0]
             if genuine:
-                pt = json.dumps(CLAIMS).encode() if op == "jwt.decode/jwe" else PLAINTEXT
+                pt = json.dumps(_cl(d)).encode() if op == "jwt.decode/jwe" else _pt(d)
                 return jwe.encrypt_compact(jwe_protected(a, enc, zipv), pt, K.jwe(a, enc), registry=perm, **skw)
             return craft_jwe(d, K, "compact")
         if op == "jwe.decrypt_json/flat":
             a = algs[0]
             if genuine:
-                obj = jwe.FlattenedJSONEncryption(jwe_protected(a, enc, zipv, False), PLAINTEXT)
+                obj = jwe.FlattenedJSONEncryption(jwe_protected(a, enc, zipv, False), _pt(d), None, _aad(d))
                 obj.add_recipient(recipient_header(a), K.jwe(a, enc))
                 return jwe.encrypt_json(obj, None, registry=perm, **skw)
             return craft_jwe(d, K, "flat")
         if op == "jwe.decrypt_json/general":
             if genuine:
-                obj = jwe.GeneralJSONEncryption(jwe_protected(None, enc, zipv, False), PLAINTEXT)
+                obj = jwe.GeneralJSONEncryption(jwe_protected(None, enc, zipv, False), _pt(d), None, _aad(d))
                 for a in algs:
                     obj.add_recipient(recipient_header(a), K.jwe(a, enc))
                 return jwe.encrypt_json(obj, None, registry=perm, **skw)
             reals = [a for a in algs if isinstance(a, str) and a in EA]
             if okz and oke and reals:
                 # genuine recipients for the registered algs, hand-built ones for the others, in order
-                obj = jwe.GeneralJSONEncryption(jwe_protected(None, enc, zipv, False), PLAINTEXT)
+                obj = jwe.GeneralJSONEncryption(jwe_protected(None, enc, zipv, False), _pt(d), None, _aad(d))
                 for a in reals:
                     obj.add_recipient(recipient_header(a), K.jwe(a, enc))
                 out = jwe.encrypt_json(obj, None, registry=perm, **skw)
@@ -400,7 +427,7 @@ def craft_jwe(d, K, shape):
             aad = b64json(prot)
         key = K.jwe("dir", enc)
         iv = encm.generate_iv()
-        ct, tag = encm.encrypt(PLAINTEXT, key.get_op_key("encrypt"), iv, aad.encode("ascii"))
+        ct, tag = encm.encrypt(_pt(d), key.get_op_key("encrypt"), iv, aad.encode("ascii"))
         ek = b""
         if shape == "flat":
             return {"protected": aad, "iv": b64(iv), "ciphertext": b64(ct), "tag": b64(tag)}
@@ -452,48 +479,48 @@ def _execute(d, K, regobj=None, kwout=None):
     skw = {"sender_key": K.sender} if d.get("sender") else {}
     # ---- JWS signing
     if op == "jws.serialize_compact":
-        jws.serialize_compact({"alg": d["algs"][0]}, PAYLOAD, jkey, **kw)
+        jws.serialize_compact({"alg": d["algs"][0]}, _pl(d), jkey, **kw)
     elif op == "jws.serialize_json/flat":
         loc = d.get("hdrloc", "protected")
-        jws.serialize_json({loc: {"alg": d["algs"][0]}}, PAYLOAD, jkey, **kw)
+        jws.serialize_json({loc: {"alg": d["algs"][0]}}, _pl(d), jkey, **kw)
     elif op == "jws.serialize_json/general":
-        jws.serialize_json([{"protected": {"alg": a}} for a in d["algs"]], PAYLOAD, jkey, **kw)
+        jws.serialize_json([{"protected": {"alg": a}} for a in d["algs"]], _pl(d), jkey, **kw)
     elif op == "rfc7797.serialize_compact":
-        c7797.serialize_compact(jws_header(d["algs"][0], d["b64"]), TEXT_PAYLOAD, jkey, **kw)
+        c7797.serialize_compact(jws_header(d["algs"][0], d["b64"]), _txt(d), jkey, **kw)
     elif op == "rfc7797.serialize_json":
-        j7797.serialize_json({"protected": jws_header(d["algs"][0], d["b64"])}, TEXT_PAYLOAD, jkey, **kw)
+        j7797.serialize_json({"protected": jws_header(d["algs"][0], d["b64"])}, _txt(d), jkey, **kw)
     elif op == "jwt.encode":
-        jwt.encode({"alg": d["algs"][0]}, CLAIMS, jkey, **kw)
+        jwt.encode({"alg": d["algs"][0]}, _cl(d), jkey, **kw)
     # ---- JWS verification
     elif op == "jws.deserialize_compact":
         o = jws.deserialize_compact(d["token"], jkey, **kw)
-        assert o.payload == PAYLOAD
+        assert o.payload == _pl(d)
     elif op == "jws.validate_compact":
         obj = jws.extract_compact(d["token"].encode("ascii"))
         if not jws.validate_compact(obj, jkey, **kw):
             return ("err", BadSignatureError())      # normalised: False == bad signature
     elif op in ("jws.deserialize_json/flat", "jws.deserialize_json/general"):
         o = jws.deserialize_json(d["token"], jkey, **kw)
-        assert o.payload == PAYLOAD
+        assert o.payload == _pl(d)
     elif op == "rfc7797.deserialize_compact":
         c7797.deserialize_compact(d["token"], jkey, **kw)
     elif op == "rfc7797.deserialize_json":
         j7797.deserialize_json(d["token"], jkey, **kw)
     elif op == "jwt.decode":
         t = jwt.decode(d["token"], jkey, **kw)
-        assert t.claims == CLAIMS
+        assert t.claims == _cl(d)
     # ---- JWE
     elif op in ("jwe.encrypt_compact", "jwt.encode/jwe"):
         a, enc = d["algs"][0], d["enc"]
         h = jwe_protected(a, enc, d["zip"])
         if op == "jwe.encrypt_compact":
-            jwe.encrypt_compact(h, PLAINTEXT, K.jwe(a, enc), **kw, **skw)
+            jwe.encrypt_compact(h, _pt(d), K.jwe(a, enc), **kw, **skw)
         else:
-            jwt.encode(h, CLAIMS, K.jwe(a, enc), **kw)
+            jwt.encode(h, _cl(d), K.jwe(a, enc), **kw)
     elif op in ("jwe.encrypt_json/flat", "jwe.encrypt_json/general"):
         enc = d["enc"]
         cls = jwe.FlattenedJSONEncryption if op.endswith("flat") else jwe.GeneralJSONEncryption
-        obj = cls(jwe_protected(None, enc, d["zip"], False), PLAINTEXT)
+        obj = cls(jwe_protected(None, enc, d["zip"], False), _pt(d), None, _aad(d))
         for a in d["algs"]:
             obj.add_recipient(recipient_header(a), K.jwe(a, enc))
         jwe.encrypt_json(obj, None, **kw, **skw)
@@ -502,13 +529,13 @@ def _execute(d, K, regobj=None, kwout=None):
         ekey = lambda r: K.jwe(_alg_of(r), enc)   # noqa: E731
         if op == "jwe.decrypt_compact":
             o = jwe.decrypt_compact(d["token"], ekey, **kw, **skw)
-            assert o.plaintext == PLAINTEXT
+            assert o.plaintext == _pt(d)
         elif op == "jwt.decode/jwe":
             t = jwt.decode(d["token"], ekey, **kw)
-            assert t.claims == CLAIMS
+            assert t.claims == _cl(d)
         else:
             o = jwe.decrypt_json(d["token"], ekey, **kw, **skw)
-            assert o.plaintext == PLAINTEXT
+            assert o.plaintext == _pt(d)
     else:
         raise ValueError("unknown op " + op)
     return ("ok", None)
@@ -1025,6 +1052,8 @@ def shared_call(g, ctx, refs):
             d["algorithms"] = list(universe) + ["XX"]
         else:
             d["algorithms"] = g.allow_for(used, universe, rec)
+    if not gate:
+        d["msg"] = rng.choice([ABSENT, ABSENT, ABSENT, "empty", "one"])
     if (op in ("jwt.encode", "jwt.decode") and d["registry"] is not ABSENT and d["registry"][0] == "fresh"
             and fam_of(d["registry"][1]["cls"]) == "jwe"):
         d["registry"] = ("fresh", dict(d["registry"][1], cls="jws"))
@@ -1240,7 +1269,7 @@ def replay_blob(K, calls, idx=None):
 
 
 def describe(d):
-    return {k: (repr(v) if k in ("algorithms", "registry", "name", "algs", "enc", "zip", "b64") else v)
+    return {k: (repr(v) if k in ("algorithms", "registry", "name", "algs", "enc", "zip", "b64", "msg", "aad") else v)
             for k, v in d.items() if k != "token"}
 
 
@@ -1348,9 +1377,28 @@ def run(ctx):
     # ---- single calls
     singles = gate_calls(g, ctx) + jws_calls(g, ctx) + jwe_calls(g, ctx)
     ctx.rng.shuffle(singles)
+    # DEGENERATE message contents: the verdict of the gates must not depend on the message
+    # (plaintext b"" / one octet, aad None / b"", JWS payload b"", empty claims).  Every call gets a
+    # random content; every JWE producing call that names a zip and a sample of the others is
+    # repeated with the other contents, the verdicts must be equal (and equal the model's, whose
+    # calls carry no message at all)
+    expanded = []
+    for d in singles:
+        if d["op"] in GATE_OPS:
+            expanded.append((d, None))
+            continue
+        d["msg"] = ctx.rng.choice([ABSENT, ABSENT, ABSENT, "empty", "empty", "one"])
+        if d["op"] in ("jwe.encrypt_json/flat", "jwe.encrypt_json/general", "jwe.decrypt_json/flat", "jwe.decrypt_json/general"):
+            d["aad"] = ctx.rng.choice([ABSENT, ABSENT, b"", b"c05 aad"])
+        expanded.append((d, None))
+        if (d["op"] in JWE_ENC_OPS and d["zip"] is not ABSENT) or ctx.rng.random() < 0.12:
+            for m in ("default", "empty", "one"):
+                if m != _msg(d):
+                    expanded.append((dict(d, msg=m), d))
     pool = []
     t_tok = 0
-    for d in singles:
+    base_verdict = {}
+    for d, parent in expanded:
         if d["op"] in JWS_VERIFY_OPS or d["op"] in JWE_DEC_OPS:
             try:
                 d["token"] = make_token(d, K)
@@ -1367,6 +1415,19 @@ def run(ctx):
         cases.append("Hist false [%s] [%s] []" % (c_call(d), c_verdict_for(d, v)))
         meta.append(("call", d, v))
         pool.append((d, v))
+        base_verdict[id(d)] = v
+        if parent is not None and id(parent) in base_verdict and base_verdict[id(parent)] != v:
+            pv_ = base_verdict[id(parent)]
+            dist["message_variants_differ"] = dist.get("message_variants_differ", 0) + 1
+            ctx.violation({"kind": "message-dependent-gate", "op": d["op"]},
+                          "%s(%s) gave %r with message content %r but %r with content %r: the allow-list verdict depends on "
+                          "the message" % (d["op"], ", ".join("%s=%r" % (k, x) for k, x in d.items()
+                                                               if k in ("algs", "enc", "zip", "b64", "algorithms", "registry")),
+                                           v, _msg(d), pv_, _msg(parent)),
+                          {"check": "message", "call": describe(d), "verdict": list(v), "other_verdict": list(pv_),
+                           "blob": replay_blob(K, [parent, d], 1)})
+        if parent is not None:
+            dist["message_variant_calls"] = dist.get("message_variant_calls", 0) + 1
 
     # ---- none
     from joserfc.rfc7518.jws_algs import NoneAlgModel
@@ -1657,6 +1718,11 @@ def replay(path):
                 bad = 1
         if first.setdefault(key_of(d), v) != v:
             print("   verdict differs from the first time")
+            bad = 1
+    if rep.get("check") == "message":
+        vs = [verdict_of(execute(x, K)) for x in blob["calls"]]
+        if len(set(vs)) > 1:
+            print("   verdicts differ between message contents:", vs)
             bad = 1
     if rep.get("check") in ("history", "fresh"):
         want = tuple(rep.get("first_verdict") or rep.get("fresh_verdict") or ())
